@@ -641,3 +641,145 @@ Section Count12b.
       eexists; split; [eapply ext_trans; [exact E03|exact E4]|]. rewrite ocs_app, Hocs3. auto.
   Qed.
 End Count12b.
+
+(* ---- the write side never writes a throttle reply --------------------------------------------------- *)
+Section WriteSide.
+  Context {T : Type}.
+  Variable tp : transport T response cmsg.
+  Notation st := (@sstate T).
+
+  Lemma ensure_nonthr : forall (s : st) w s', ensure_writeable tp s = (w, s') ->
+    exists new, ext s s' new /\ Forall nonthr new /\ s_respq s' = s_respq s.
+  Proof.
+    intros s w s' H. unfold ensure_writeable in H.
+    destruct (do_ready tp s) as [r s1] eqn:E1. destruct (do_ready_core tp _ _ _ E1) as (_ & _ & Q1 & _ & _ & L1).
+    assert (X1 : ext s s1 [CReady r]) by (unfold ext; rewrite L1; reflexivity).
+    assert (F1 : Forall nonthr [CReady r]) by (repeat constructor).
+    destruct r; try (injection H as <- <-; eexists; split; [exact X1|split; [exact F1|exact Q1]]).
+    destruct (do_flush tp s1) as [f s2] eqn:E2. destruct (do_flush_core tp _ _ _ E2) as (_ & _ & Q2 & _ & _ & L2).
+    assert (X2 : ext s s2 ([CReady TPending] ++ [CFlush f])).
+    { eapply ext_trans; [exact X1|]. unfold ext; rewrite L2; reflexivity. }
+    assert (F2 : Forall nonthr ([CReady TPending] ++ [CFlush f])) by (repeat constructor).
+    destruct f; try (injection H as <- <-; eexists; split; [exact X2|split; [exact F2|congruence]]).
+    destruct (do_ready tp s2) as [r2 s3] eqn:E3. destruct (do_ready_core tp _ _ _ E3) as (_ & _ & Q3 & _ & _ & L3).
+    assert (X3 : ext s s3 (([CReady TPending] ++ [CFlush TOk]) ++ [CReady r2])).
+    { eapply ext_trans; [exact X2|]. unfold ext; rewrite L3; reflexivity. }
+    destruct r2; injection H as <- <-; eexists; (split; [exact X3|]);
+      (split; [repeat constructor|congruence]).
+  Qed.
+
+  Lemma pump_write_nonthr : forall rc (s : st) w s',
+    no_thr s -> pump_write tp rc s = (w, s') ->
+    exists new, ext s s' new /\ Forall nonthr new.
+  Proof.
+    intros rc s w s' Hnt H. unfold pump_write, poll_next_response in H.
+    destruct (ensure_writeable tp s) as [x s1] eqn:EW.
+    destruct (ensure_nonthr _ _ _ EW) as (n1 & X1 & F1 & Q1).
+    assert (Hnt1 : no_thr s1) by (intros m Hm; apply Hnt; rewrite <- Q1; exact Hm).
+    assert (Hflush : forall w s',
+      (let '(f, s2) := do_flush tp s1 in
+       match f with
+       | TOk => if rc && Nat.eqb (length (s_inflight s2)) 0 then (@PEnd unit, s2) else (PPending, s2)
+       | TErr => (PErr AFlush, s2)
+       | TPending => (PPending, s2)
+       end) = (w, s') ->
+      exists new, ext s s' new /\ Forall nonthr new).
+    { intros w0 s0 HH. destruct (do_flush tp s1) as [f s2] eqn:EF.
+      destruct (do_flush_core tp _ _ _ EF) as (_ & _ & _ & _ & _ & L2).
+      assert (R : exists new, ext s s2 new /\ Forall nonthr new).
+      { exists (n1 ++ [CFlush f]). split; [eapply ext_trans; [exact X1|unfold ext; rewrite L2; reflexivity]|].
+        apply Forall_app. split; [exact F1|repeat constructor]. }
+      destruct f; [destruct (rc && _)| |]; injection HH as <- <-; exact R. }
+    destruct x as [| |a].
+    - destruct (s_respq s1) as [|m q] eqn:EQ.
+      + apply (Hflush w s'). exact H.
+      + destruct (base_start_send tp m (add_permit (set_respq s1 q))) as [e s2] eqn:ES.
+        assert (Hm : resp_body m <> BThrottle) by (apply Hnt1; rewrite EQ; left; reflexivity).
+        destruct (add_permit_shape (set_respq s1 q)) as (A1 & A2 & A3 & A4 & A5 & A6 & A7 & A8 & A9 & A10 & A11 & A12 & A13).
+        cbv zeta in *. sproj.
+        assert (R : exists new, ext s s2 new /\ Forall nonthr new).
+        { destruct (base_start_send_shape tp _ _ _ _ ES) as [(_ & _ & ->)|(en & rr & _ & _ & _ & _ & _ & _ & _ & _ & _ & _ & _ & _ & _ & _ & LL)].
+          - exists n1. split; [unfold ext in *; rewrite A12; exact X1|exact F1].
+          - exists (n1 ++ [CSend m rr]). split; [eapply ext_trans; [exact X1|unfold ext; rewrite LL, A12; reflexivity]|].
+            apply Forall_app. split; [exact F1|]. constructor; [exact Hm|constructor]. }
+        destruct e; injection H as <- <-; exact R.
+    - apply (Hflush w s'). exact H.
+    - injection H as <- <-. exists n1. split; [exact X1|exact F1].
+  Qed.
+End WriteSide.
+
+Section Count12c.
+  Context {T : Type}.
+  Variable tp : transport T response cmsg.
+  Variable lim : option nat.
+  Notation st := (@sstate T).
+  Notation ocs := (fold_left (o_call lim)).
+  Variable o0 : ostate.
+  Variable s0 : st.
+  Hypothesis HI0 : InvU o0 s0.
+  Hypothesis HN0 : h_b1 (o_v o0) = true -> NSh o0 s0.
+  Hypothesis HF0 : FM o0.
+
+  Lemma SM_wframe : forall (s s' : st), SM s0 s -> wframe s s' -> SM s0 s'.
+  Proof.
+    intros s s' HS (W1 & W2 & W3 & W4 & W5 & W6 & W7).
+    apply (SM_shrink s0 s s' HS); auto. rewrite W5. auto.
+  Qed.
+
+  (* impl Stream for Requests: poll_next *)
+  Lemma requests_c : forall c f (s : st) r s' o,
+    cfg_limit c = lim -> BInv o s -> no_thr s -> OM o0 o -> SM s0 s -> G o ->
+    requests_poll_next tp c f s = (r, s') ->
+    exists new, ext s s' new /\ G (ocs new o).
+  Proof.
+    intros c f; induction f as [|f IH]; intros s r s' o Hlim HB Hnt HOM HSM HG H; cbn [requests_poll_next] in H.
+    { injection H as <- <-. exists []. split; [apply ext_refl|exact HG]. }
+    destruct (pump_read tp c (S f) s) as [rd s1] eqn:ER.
+    assert (Hrd : exists n1, ext s s1 n1 /\ post rd (ocs n1 o) s1 /\ SM s0 s1 /\ G (ocs n1 o)
+                             /\ s_respq s1 = s_respq s).
+    { unfold pump_read in ER. destruct (cfg_limit c) as [l|] eqn:El.
+      - destruct (maxreq_c tp lim o0 s0 HI0 HN0 HF0 _ _ _ _ _ _ (eq_sym Hlim) HB HOM HSM HG ER) as (n1 & A & B & D & E).
+        exists n1. repeat (split; [assumption|]). exact (respq_maxreq tp _ _ _ _ _ ER).
+      - assert (HL0 : LB 0 o s) by (intros _; left; lia).
+        destruct (base_c' tp lim o0 s0 HI0 HN0 HF0 _ _ _ _ _ 0 HB HOM HSM HL0 HG ER) as (n1 & A & B & D & _ & E).
+        exists n1. repeat (split; [assumption|]). exact (respq_base tp _ _ _ _ ER). }
+    destruct Hrd as (n1 & X1 & Post1 & HSM1 & HG1 & Hq1).
+    assert (Hnt1 : no_thr s1) by (intros m Hm; apply Hnt; rewrite <- Hq1; exact Hm).
+    assert (HOM1 : OM o0 (ocs n1 o)) by (eapply OM_trans; [exact HOM|apply OM_calls]).
+    (* the write side *)
+    assert (W : forall rc wr s2, InvU (ocs n1 o) s1 -> c_err (o_v (ocs n1 o)) = false ->
+              pump_write tp rc s1 = (wr, s2) ->
+              exists n2, ext s s2 (n1 ++ n2) /\ wpost (ocs n1 o) s1 (ocs (n1 ++ n2) o) s2 /\ no_thr s2
+                         /\ SM s0 s2 /\ G (ocs (n1 ++ n2) o) /\ OM o0 (ocs (n1 ++ n2) o)).
+    { intros rc wr s2 HI1 Hce1 EW.
+      destruct (pump_write_inv tp lim _ _ _ _ _ HI1 Hce1 Hnt1 EW) as (n2 & X2 & WP & Hnt2).
+      destruct (pump_write_nonthr tp _ _ _ _ Hnt1 EW) as (n2' & X2' & F2).
+      assert (n2' = n2) by (eapply ocs_ext_unique; eauto). subst n2'.
+      exists n2. rewrite ocs_app. split; [eapply ext_trans; eauto|]. split; [exact WP|split; [exact Hnt2|]].
+      destruct WP as (_ & _ & _ & Wf).
+      split; [eapply SM_wframe; eauto|]. split; [apply ocs_G_nonthr; assumption|].
+      eapply OM_trans; [exact HOM1|apply OM_calls]. }
+    destruct rd as [q| |a| |].
+    - destruct Post1 as ((HI1 & HP1 & Hce1) & Hin1).
+      destruct (pump_write tp false s1) as [wr s2] eqn:EW.
+      destruct (W _ _ _ HI1 Hce1 EW) as (n2 & X02 & _ & _ & _ & HG2 & _).
+      destruct wr as [u| |a| |]; injection H as <- <-; exists (n1 ++ n2);
+        (split; [first [exact X02|unfold ext in *; sproj; exact X02]|exact HG2]).
+    - destruct Post1 as (HI1 & Hh1 & Hce1).
+      destruct (pump_write tp true s1) as [wr s2] eqn:EW.
+      destruct (W _ _ _ HI1 Hce1 EW) as (n2 & X02 & WP & Hnt2 & HSM2 & HG2 & HOM2).
+      pose proof (BInv_wpost _ _ _ _ (conj HI1 (conj Hh1 Hce1)) WP) as HB2.
+      destruct wr as [u| |a| |]; try (injection H as <- <-; exists (n1 ++ n2); split; [exact X02|exact HG2]).
+      destruct (IH _ _ _ _ Hlim HB2 Hnt2 HOM2 HSM2 HG2 H) as (n3 & X3 & G3).
+      exists ((n1 ++ n2) ++ n3). split; [eapply ext_trans; eauto|]. rewrite ocs_app. exact G3.
+    - injection H as <- <-. exists n1. split; [exact X1|exact HG1].
+    - destruct Post1 as (HI1 & Hh1 & Hce1).
+      destruct (pump_write tp false s1) as [wr s2] eqn:EW.
+      destruct (W _ _ _ HI1 Hce1 EW) as (n2 & X02 & WP & Hnt2 & HSM2 & HG2 & HOM2).
+      pose proof (BInv_wpost _ _ _ _ (conj HI1 (conj Hh1 Hce1)) WP) as HB2.
+      destruct wr as [u| |a| |]; try (injection H as <- <-; exists (n1 ++ n2); split; [exact X02|exact HG2]).
+      destruct (IH _ _ _ _ Hlim HB2 Hnt2 HOM2 HSM2 HG2 H) as (n3 & X3 & G3).
+      exists ((n1 ++ n2) ++ n3). split; [eapply ext_trans; eauto|]. rewrite ocs_app. exact G3.
+    - injection H as <- <-. exists n1. split; [exact X1|exact HG1].
+  Qed.
+End Count12c.
